@@ -440,7 +440,7 @@ impl C12 {
 // ------------------------------------------------------------------------------------------
 
 fn gen_data(r: &mut Xo, n: usize, p: usize, f32m: bool) -> (Vec<Vec<f64>>, &'static str) {
-    let kind = r.below(5);
+    let kind = r.below(7);
     let scale = *r.pick(&[0.01, 1.0, 1.0, 10.0, 1000.0]);
     let offset = if r.chance(0.3) { scale * r.range(-20.0, 20.0) } else { 0.0 };
     let mut data: Vec<Vec<f64>> = Vec::with_capacity(n);
@@ -478,6 +478,24 @@ fn gen_data(r: &mut Xo, n: usize, p: usize, f32m: bool) -> (Vec<Vec<f64>>, &'sta
             while data.len() < n {
                 let src = r.below(data.len() as u64) as usize;
                 data.push(data[src].clone());
+            }
+        }
+        5 => {
+            name = "decimal-lattice";
+            // multiples of 0.1 (or 1/3): not exactly representable, so sums and means depend on the order of
+            // summation in the last ulp while distances tie up to rounding
+            let step = *r.pick(&[0.1, 0.1, 1.0 / 3.0, 0.7]);
+            let l = r.usize_in(2, 9) as u64;
+            for _ in 0..n {
+                data.push((0..p).map(|_| r.below(l + 1) as f64 * step).collect());
+            }
+        }
+        6 => {
+            name = "skewed-lattice";
+            // few distinct values with very unequal multiplicities (e.g. 0,0,0,0,1,10,10,11)
+            let vals: Vec<f64> = (0..r.usize_in(2, 5)).map(|_| r.below(12) as f64).collect();
+            for _ in 0..n {
+                data.push((0..p).map(|_| if r.chance(0.7) { vals[0] } else { *r.pick(&vals) }).collect());
             }
         }
         _ => {
